@@ -87,7 +87,7 @@ class Run:
             return
         self.counts[n] += 1
         if self.points is not None:
-            self.points.setdefault(n, []).append((code.co_filename[len(_state['pkg']):], line))
+            self.points.setdefault(n, []).append((code.co_filename[len(_state['pkg']):], line, code.co_name))
         if self.stop_at[n] is not None and self.counts[n] >= self.stop_at[n]:
             self.stop_at[n] = None
             self.stopped_at[n] = (code.co_filename[len(_state['pkg']):], line, code.co_name)
